@@ -216,6 +216,16 @@ func c16JoinE1(c *Ctx) {
 		if rejoin >= 0 {
 			cfgs = []cfgT{{false, false, false}, {true, true, true}}
 		}
+		if c.Tier == "thorough" {
+			cfgs = nil
+			for _, cf := range []bool{false, true} {
+				for _, as := range []bool{false, true} {
+					for _, ns := range []bool{false, true} {
+						cfgs = append(cfgs, cfgT{cf, as, ns})
+					}
+				}
+			}
+		}
 		for _, cfg := range cfgs {
 			for part := 0; part < 6; part++ {
 				micOK, jnSmall, opt := part < 4, part%4 < 2, part%2 == 1
